@@ -158,19 +158,19 @@ CLAIMS = {
   note="the reference model is this project's reading of the documentation; exception identity is modelled by tags.",
   ref="DESIGN.md section 4 C15"),
  "C01": dict(
-  text="Theorems C01Q.posixWords_escape (the POSIX word splitter, which fails on every expansion/substitution/glob/history/operator "
-       "hazard, recovers exactly the argument list from escape(args), for ALL byte strings), C01Q.forbidden_escape, escape_no_CR_LF, "
-       "enc_shlexQuoteC (UTF-8 commutation), Tty.echo_length_noctl (the tty echoes exactly as many bytes as send(read_back) reads "
-       "back, for every line; echo_length_ctl quantifies the caret-notation excess that was defect F2); the exec/exec0/test drivers "
-       "are modelled on the channel model (Shell.exec) with the remote's answer = echo ++ cooked output ++ prompt. Correspondence: the "
-       "REAL Bash and Ash classes drive REAL bash 5.2 and dash on a pty behind a re-fragmenting transport; a helper program records "
-       "argv through a side file; the fragmentation each run produced is replayed on the Lean model and results, written bytes and "
-       "piece sizes are compared; Spec.C01 (argv = args, output = text(cook out), status exact, forbidden byte => rejected and program "
-       "not run) judges the implementation.",
-  note="partial: the end-to-end statement 'exec returns (status, text(out)) for every fragmentation' is checked by replay on every "
-       "generated case but is not yet a closed Lean theorem (its ingredients — quoting, echo law, read(n) exactness C03, prompt "
-       "fragmentation independence C02.rup_fragmentation — are); the kernel tty and the installed shells are the environment, not "
-       "models; command lines below the tty line limit.",
+  text="Theorems C01.exec_exact / execSeq_exact / exec0_exact / test_exact / exec_rejects / spec_holds (+ C01Q.posixWords_escape, "
+       "Tty.echo_length_noctl, C01.parseInt_status): for EVERY command line, program output, status, prompt, chunk and slice size, "
+       "partial-write oracle and EVERY fragmentation of the remote's answer (tty echo ++ cooked output ++ prompt, then the `echo $?` "
+       "answer), under the no-early-prompt hypothesis, the model of Bash/Ash.exec on the channel model returns exactly (status, "
+       "text(cook out)), writes exactly `line CR echo $? CR`, consumes exactly the answer and is in sync again — hence by induction "
+       "every command of a sequence is exact; a forbidden byte is rejected with nothing written; the POSIX splitter (which fails on "
+       "every expansion/glob/history/operator hazard) recovers exactly the argument list from escape(args) for ALL byte strings. "
+       "Correspondence: the REAL Bash and Ash classes drive REAL bash 5.2 and dash on a pty behind a re-fragmenting transport; a helper "
+       "program records argv through a side file; the fragmentation each run produced is replayed on the Lean model (results, written "
+       "bytes and piece sizes compared); Spec.C01 judges the implementation.",
+  note="partial: the kernel tty and the installed shells are the environment (their byte stream is predicted by Tty.echo/cook and "
+       "validated on every case, not proved); command lines below the tty line limit; program output must not contain the complete "
+       "prompt (NoEarly).",
   ref="DESIGN.md section 4 C01"),
 }
 
